@@ -2,6 +2,7 @@ import McpModel.Base.Proto
 import McpModel.Sessions.Replay
 import McpModel.Sessions.Monitor
 import McpModel.Sessions.Ephemeral
+import McpModel.Sessions.Gate
 /-!
 Driver for E7 (C11): the **string layer** only.
 
@@ -20,13 +21,15 @@ Harness operations (see go/harness/mcp/zz_verif_sessions_test.go):
 `reset <stateful|stateless|legacy|noids> <timeout ms> [es|nes]` (`legacy`: a stateless endpoint under
 `MCPGODEBUG allowsessionsinstateless=1`, `noids`: a stateful endpoint whose `GetSessionID` returns "" — both are
 replayed and judged by Ephemeral.lean; `es`: the handler has an `EventStore`, a fault-injecting
-wrapper of the in-memory store) · `fault <flags>` (from now on the event-store methods named by the flags
+wrapper of the in-memory store) · a further `json` sets `StreamableHTTPOptions.JSONResponse`
+(the session layer does not depend on it: the model has no such field) · `fault <flags>` (from now on the event-store methods named by the flags
 fail: `c` SessionClosed, `o` Open of the standalone stream = `Transport.Connect`, `O` Open of a request's
 stream, `a` Append, `r` After; `-` none) · `post <ref> <user> <init|badinit|ping|notif|slow>` ·
 `postx <user> <kind>` (a creating POST during which the server closes the new session between `Connect`
 and the publication in `h.sessions` — F20) ·
 `release <slot>` · `abandon <slot>` (the client of that POST goes away, its handler keeps running) ·
-`get|delete|other <ref> <user>` · `tick <ms>` · `close <ref>` · `postb <ref> <user>` (the HEADERS of a POST
+`get|delete|other <ref> <user>` · `bad <ctype|accept|getaccept|noserver> <ref> <user>` (a request the handler
+refuses before it reads the session id: Gate.lean) · `tick <ms>` · `close <ref>` · `postb <ref> <user>` (the HEADERS of a POST
 carrying a `ping` arrive, its body follows in pieces; the request is named `u<n>`, n = the harness's count of
 asynchronous requests) · `body <n> more|end` (a piece / the last piece of that body arrives) · `end`;
 `ref` = `-` | `s<k>` (k-th minted id) | `x<n>` (never minted); `user` = `anon|ue|u<n>`.
@@ -382,6 +385,26 @@ def Eph.EClause.text (m : Eph.Mode) : Eph.EClause → String
 def sortSrv (l : List Name) : List Name :=
   l.mergeSort (fun a b => a.render.length < b.render.length || (a.render.length == b.render.length && a.render ≤ b.render))
 
+/-! ## requests refused before the session layer (Gate.lean) -/
+
+def parseWhy (s : String) : Option Why :=
+  match s with
+  | "ctype" => some .ctype
+  | "accept" => some .accept
+  | "getaccept" => some .getAccept
+  | "noserver" => some .noServer
+  | _ => none
+
+def Why.text : Why → String
+  | .ctype => "POST with a Content-Type other than application/json"
+  | .accept => "POST whose Accept lacks application/json or text/event-stream"
+  | .getAccept => "GET whose Accept lacks text/event-stream"
+  | .noServer => "POST without a session id for which getServer returns nil"
+
+def GateClause.text : GateClause → String
+  | .answered w st => s!"C11:request that must be refused ({w.text}) answered {st.render}"
+  | .effect c => s!"{c.text} (after a request that is refused before the session layer and must have no effect)"
+
 /-! ## the engine -/
 
 structure DState where
@@ -398,7 +421,7 @@ def engine : Engine DState where
     | "reset" :: mode :: ms :: rest =>
       let cfg : Cfg := { stateless := mode == "stateless", timeout := ms.toNat?.getD 0,
                          publishChecks := Generated.Sessions.publishChecksClosed,
-                         eventStore := rest == ["es"] }
+                         eventStore := rest.head? == some "es" }
       ({ r := .init cfg }, { model := "ok" })
     | ["reset"] => ({}, { model := "ok" })
     | ["end"] =>
@@ -409,6 +432,15 @@ def engine : Engine DState where
       -- (the unrepaired publication of F20 leaves its dead sessions behind: the model follows it)
       let want : EndObs := { stuck := 0, map := endLeft d.r, srv := 0, timers := 0 }
       (d, { model := want.render, violated := (monEnd d.mon (parseEnd impl)).map EndClause.text })
+    | ["bad", why, _, _] =>
+      -- a request that is refused before the session layer: for model and monitor a `tick 0` plus its status
+      match parseWhy why, d.eph with
+      | some w, none =>
+        let (mon', v) := gateJudge d.r.st.cfg d.mon w (parseObs impl)
+        match gateModel d.r w with
+        | none => ({ d with mon := mon' }, { model := "bad-op", violated := v.map GateClause.text })
+        | some (r, mo) => ({ d with r := r, mon := mon' }, { model := mo.render, violated := v.map GateClause.text })
+      | _, _ => (d, { model := "bad-op" })
     | _ =>
       match parseOp toks with
       | none => (d, { model := "bad-op" })
